@@ -39,7 +39,7 @@ type action struct {
 	dup    bool // include the same bytes twice (second one must fail on the sequence)
 }
 
-var signalIDs = []string{"CS:BTC-USD", "CS:ETH-USD", "CS:BAND-USD", "CS:ATOM-USD"}
+var signalIDs = []string{"CS:BTC-USD", "CS:ETH-USD", "CS:BAND-USD", "CS:ATOM-USD", "X", "CS:A-VERY-LONG-SIGNAL-ID-32BYTES"}
 
 // gen generates blocks statefully: every choice is resolved against replica A's committed state.
 type gen struct {
@@ -105,6 +105,26 @@ func (g *gen) nextBlock(mutate bool) (dt int64, acts []action) {
 		safely(func() { add(g.randomAction(ctx, newTime)...) })
 	}
 	g.rng.Shuffle(len(acts), func(i, j int) { acts[i], acts[j] = acts[j], acts[i] })
+	// gas ladder: replay one transaction of this block a number of times with stepped gas limits, so that it
+	// runs out of gas at many different points inside its handler.  gas_used of an aborted transaction exposes
+	// any dependence of the handler on Go map iteration order (the replicas would report different values).
+	if mutate || g.chance(0.35) {
+		var cand []int
+		for i, a := range acts {
+			if a.kind == "vote" || g.chance(0.15) {
+				cand = append(cand, i)
+			}
+		}
+		if len(cand) > 0 {
+			a := acts[cand[g.pick(len(cand))]]
+			base, step := uint64(38_000+g.pick(20_000)), uint64(1_500+g.pick(2_000))
+			for k := 0; k < 40; k++ {
+				b := a
+				b.kind, b.gas, b.dup = a.kind+"-ladder", base+uint64(k)*step, false
+				acts = append(acts, b)
+			}
+		}
+	}
 	for _, a := range acts {
 		for _, m := range a.msgs {
 			g.Kinds[strings.TrimPrefix(sdk.MsgTypeURL(m), "/")]++
